@@ -8,7 +8,7 @@
 
    Reals are compared within the writer's stated precision: the expected value lists the acceptable
    six-decimal renderings (value, value +/- 1e-6); a real written without fraction may come back as an integer. *)
-EXTENDS PdfLex, TraceLib
+EXTENDS PdfLex, TraceLib, TextString
 
 VARIABLES l, cur
 tvars == <<lexvars, l, cur>>
@@ -37,6 +37,7 @@ DropLength(pairs) == SelectSeq(pairs, LAMBDA p : p.k # <<76, 101, 110, 103, 116,
 RECURSIVE Matches(_, _)
 Matches(got, want) ==
   CASE want.t = "real" -> got.t \in {"real", "int"} /\ InSeq(NumStr(got), want.alts)
+    [] want.t = "text" -> got.t = "str" /\ DecodeText(got.b) = want.cps
     [] want.t = "arr" -> got.t = "arr" /\ Len(got.v) = Len(want.v) /\ \A i \in 1..Len(want.v) : Matches(got.v[i], want.v[i])
     [] want.t = "dict" -> /\ got.t = "dict" /\ Len(got.v) = Len(want.v)
                           /\ \A i, j \in 1..Len(got.v) : (i # j) => got.v[i].k # got.v[j].k
